@@ -33,9 +33,9 @@ K = (
 NK = 10  # row kinds TEXT..COMMENT
 
 
-def seq_shape_ok(kinds, label: str) -> bool:
-    exp = M.expected(kinds)
-    wb = {"survey": M.rows_for(kinds, label), "choices": M.CHOICES}
+def seq_shape_ok(kinds, label: str, disabled: str = "yes", exp_kinds=None) -> bool:
+    exp = M.expected(kinds if exp_kinds is None else exp_kinds)
+    wb = {"survey": M.rows_for(kinds, label, disabled), "choices": M.CHOICES}
     hdr = {"type": None, "name": None, "label": None, "calculation": None, "disabled": None, "hint": None}
     wb["survey_header"] = [hdr]
     try:
@@ -137,6 +137,36 @@ specialise(
     symbolic="third row kind over the 10-kind vocabulary and a label tracer with one symbolic character; the middle row is a blank / disabled / comment row (fixed per instance)",
     bounds="3 survey rows with a noise row in the middle",
     weight=40,
+)
+
+
+# "marked disabled": the documented truth spellings plus the XPath boolean literals
+DISABLED_SPELLINGS = ["yes", "Yes", "YES", "true", "True", "TRUE", "true()", "no", "No", "NO", "false", "False", "FALSE", "false()"]
+
+
+def c04_disabled(k0: int, k2: int, sp: int, l0: int) -> bool:
+    """
+    vpre: 0 <= sp <= 13
+    vpre: 33 <= l0 <= 126 and l0 != 36
+    vpost: _ == True
+    """
+    kinds = [k0, M.DISABLED, k2]
+    exp_kinds = [k0, M.DISABLED if sp < 7 else M.TEXT, k2]
+    return seq_shape_ok(kinds, S(l0, 66), DISABLED_SPELLINGS[sp], exp_kinds)
+
+
+specialise(
+    "C04",
+    "a.disabled-spelling",
+    c04_disabled,
+    {"k0": [M.TEXT, M.BGROUP, M.BREPEAT], "k2": [M.TEXT, M.EGROUP, M.EREPEAT]},
+    skip_if=lambda fx: (fx["k0"], fx["k2"]) not in ((M.TEXT, M.TEXT), (M.BGROUP, M.EGROUP), (M.BREPEAT, M.EREPEAT)),
+    timeout=400,
+    kernel=K,
+    shims=("S1", "S2", "S3", "S4"),
+    symbolic="spelling of the disabled cell chosen by a symbolic index over the 14 truth spellings (7 true: the row produces nothing; 7 false: the row is an ordinary question), a label tracer",
+    bounds="3 survey rows, the middle one carrying a disabled cell; outer rows fixed per instance (two questions / a group / a repeat around it: a skipped only child leaves an empty section)",
+    weight=60,
 )
 
 
@@ -275,16 +305,23 @@ specialise(
 
 
 # ---- b': appearance cells reach their own control ---------------------------------------------
-def c04_appearance(outer: int, a0: int, a1: int, b0: int, b1: int) -> bool:
+SECTION_APPEARANCES = [("{}", "field-list"), ("{} minimal", "field-list minimal"), ("minimal {}", "field-list minimal"), ("compact {} minimal", "field-list compact minimal")]
+
+
+def c04_appearance(outer: int, mod: int, a0: int, a1: int, b0: int, b1: int) -> bool:
     """
+    vpre: 0 <= mod <= 3
     vpre: 97 <= a0 <= 122 and 97 <= a1 <= 122 and 97 <= b0 <= 122 and 97 <= b1 <= 122
     vpost: _ == True
     """
     A, B = S(a0, a1), S(b0, b1)
     kind = ["group", "repeat", "group", "repeat"][outer]
     table = outer >= 2
+    cell, want_sec = SECTION_APPEARANCES[mod]
+    if not table:
+        want_sec = cell.replace("{}", "field-list")  # written as is
     rows = [
-        {"type": "begin " + kind, "name": "s", "label": "S", "appearance": "table-list" if table else "field-list"},
+        {"type": "begin " + kind, "name": "s", "label": "S", "appearance": cell.replace("{}", "table-list" if table else "field-list")},
         {"type": "select_one l1", "name": "q1", "label": "Q1"},
         {"type": "end " + kind},
         {"type": "select_one l1", "name": "q2", "label": "Q2", "appearance": A},
@@ -300,6 +337,10 @@ def c04_appearance(outer: int, a0: int, a1: int, b0: int, b1: int) -> bool:
     q3 = [e for e in elements(root, "input") if e.getAttribute("ref") == "/data/q3"]
     if len(q2) != 1 or len(q3) != 1:
         return False
+    # the section's own control: table-list is rewritten to field-list, every other modifier kept in order
+    sec = [e for e in elements(root, kind) if e.getAttribute("ref" if kind == "group" else "nodeset") == "/data/s"]
+    if len(sec) != 1 or sec[0].getAttribute("appearance") != want_sec:
+        return False
     return q2[0].getAttribute("appearance") == A and q3[0].getAttribute("appearance") == B
 
 
@@ -311,7 +352,7 @@ specialise(
     timeout=300,
     kernel=K,
     shims=("S1", "S2", "S3", "S4"),
-    symbolic="two appearance cells of 2 symbolic letters on rows that follow a closed section",
+    symbolic="two appearance cells of 2 symbolic letters on rows that follow a closed section; the section's own appearance cell chosen by a symbolic index over 4 modifier arrangements (alone, modifier after, modifier before, modifiers on both sides)",
     bounds="preceding section fixed per instance: field-list group, field-list repeat, table-list group, table-list repeat",
     weight=40,
 )
